@@ -95,7 +95,7 @@ theorem C09_switch_decision_is_semantic (P : Program) (val : Node → Option Val
     (hS : P.g.isSwitch S = true) :
     switchLabelV P val S = some (.str l) ∧ ((switchCases P S).filter (·.1 == l)).getLast? = some (l, c) ∧
     val S = val c := by
-  have hc := (safe_reach hsw hsol h).data.swOK S l c hs
+  have hc := (safe_reach_sw hsw hsol h).data.swOK S l c hs
   refine ⟨hc.1, hc.2, ?_⟩
   rw [hsol.sw S hS, hc.sel]; rfl
 
@@ -103,7 +103,8 @@ theorem C09_switch_decision_is_semantic (P : Program) (val : Node → Option Val
 theorem C09_switch_results_agree (P : Program) (val : Node → Option Val) (hsw : SwP P) (hsol : SolutionSw P val)
     (s : St) (h : Reach P s) (n : Node) (v : Val) (hr : s.res n = some v) :
     val n = some v ∧ v.isRecur = false ∧ v.isExc = false :=
-  ⟨((safe_reach hsw hsol h).data.agree n v hr).1, (safe_reach hsw hsol h).data.vals n v hr⟩
+  have hne := (safe_reach_sw hsw hsol h).data.noExc hsw.noHeads n v hr
+  ⟨(safe_reach_sw hsw hsol h).data.agree n v hr hne, (safe_reach_sw hsw hsol h).data.vals n v hr, hne⟩
 
 /-- **every body invocation gets the declared arguments**: a task that is executing (or has just executed) attempt `k`
 of node `n` with arguments `kw` — for a switch parameter the value of the selected case, as `val` of the switch node -/
@@ -112,7 +113,7 @@ theorem C09_switch_invocation_arguments (P : Program) (val : Node → Option Val
     (d : DagRef) (n : Node) (f : Bool) (k : Nat) (kw : Kwargs) (inv : Nat)
     (hf : Frame.node d n f (.body k kw inv) ∈ tk.frames) :
     kw = kwFrom P val n ∧ (∀ p ∈ P.g.preds n, (val p).isSome = true) ∧ inv = 0 ∧ 1 ≤ k ∧ k ≤ (P.cfg n).attemptsEff := by
-  obtain ⟨_, _, _, _, _, a⟩ := (safe_reach hsw hsol h).frames i tk hi (by simp) _ hf
+  obtain ⟨_, _, _, _, a⟩ := (safe_reach_sw hsw hsol h).frames i tk hi (by simp) _ hf
   refine ⟨a.kw_eq, ?_, a.inv0, a.kpos, a.kle⟩
   have := a.preds
   rw [List.all_eq_true] at this
@@ -121,7 +122,7 @@ theorem C09_switch_invocation_arguments (P : Program) (val : Node → Option Val
 /-- **a returned value is the dataflow value of the output node** -/
 theorem C09_switch_returned_value (P : Program) (val : Node → Option Val) (hsw : SwP P) (hsol : SolutionSw P val)
     (s : St) (h : Reach P s) (v : Val) (ho : s.outcome = some (.value v)) : val P.g.output = some v :=
-  (safe_reach hsw hsol h).data.out (.value v) ho
+  outcome_value_sw hsw ((safe_reach_sw hsw hsol h).data.out (.value v) ho)
 
 /-- **everything the collaborators observe is justified** (the observation log is what the lock-step tie compares with
 the real engine): a body is invoked with the declared arguments, in its only invocation, within its attempt budget and
@@ -131,7 +132,7 @@ node error is an exception the body raised (or a collaborator's); the reported a
 value or an error with a cause -/
 theorem C09_switch_observations (P : Program) (val : Node → Option Val) (hsw : SwP P) (hsol : SolutionSw P val)
     (s : St) (log : List Obs) (h : Exec P s log) : ∀ o ∈ log, ObsOK P val o :=
-  (safe_exec hsw hsol h).2
+  (safe_exec_sw hsw hsol h).2
 
 /-- **an error outcome has a cause**: the final failure of a node on its dataflow arguments, a failing collaborator, a
 switch whose decision names no declared case, or a setup error (unreachable case, pools not registered) -/
@@ -139,8 +140,8 @@ theorem C09_switch_error_has_cause (P : Program) (val : Node → Option Val) (hs
     (s : St) (h : Reach P s) (e : Exc) (ho : s.outcome = some (.error e) ∨ s.outcome = some (.raised e)) :
     ErrCause P val e := by
   rcases ho with ho | ho
-  · exact (safe_reach hsw hsol h).data.out _ ho
-  · exact (safe_reach hsw hsol h).data.out _ ho
+  · exact (safe_reach_sw hsw hsol h).data.out _ ho
+  · exact (safe_reach_sw hsw hsol h).data.out _ ho
 
 /-- a failed switch pipeline whose collaborators do not fail and whose setup is sound failed because a node did, or
 because a decision named no case -/
@@ -150,7 +151,8 @@ theorem C09_switch_error_is_a_node_failure (P : Program) (val : Node → Option 
     (hcb : ∀ cb n, P.cbRaise cb n = none) (hpools : P.poolsOk = true) (hlk : e.cls ≠ "Other:NodeNotFound") :
     (∃ n, P.g.isSwitch n = false ∧ NodeFails P val n e ∧ val n = none) ∨
     (∃ S, P.g.isSwitch S = true ∧ e = ⟨"SwitchNoCase", S, 0, 0⟩ ∧ swSel P val S = none ∧ val S = none) := by
-  rcases C09_switch_error_has_cause P val hsw hsol s h e ho with ⟨n, h1, h2⟩ | ⟨cb, m, hc⟩ | ⟨S, h1, h2, _, h4⟩ | h5 | ⟨h6, _⟩
+  rcases errCause_sw hsw (C09_switch_error_has_cause P val hsw hsol s h e ho) with
+    ⟨n, h1, h2⟩ | ⟨cb, m, hc⟩ | ⟨S, h1, h2, h4⟩ | h5 | ⟨h6, _⟩
   · refine Or.inl ⟨n, h1, h2, ?_⟩
     rw [hsol.plain n h1, h2.1]
     simp only [if_true, valueOf, h2.2]
@@ -167,7 +169,7 @@ decision node of a needed switch or its **selected** case -/
 theorem C09_switch_only_needed_nodes_run (P : Program) (val : Node → Option Val) (hsw : SwP P)
     (hsol : SolutionSw P val) (s : St) (h : Reach P s) (hord : s.badOrd = false) (n : Node) (hp : s.proc n = true) :
     Demanded P val n := by
-  rcases (safe_reach hsw hsol h).data.lazy with hb | hl
+  rcases (safe_reach_sw hsw hsol h).data.lazy with hb | hl
   · rw [hord] at hb; cases hb
   · exact hl n hp
 
@@ -281,7 +283,7 @@ example : ∃ s log, Exec demoSwitch s log ∧
     · next v => exact ⟨v, hm2, (hall _ hm2).1⟩
     · cases hp2
   · split at hp3
-    · next v => exact ⟨v, hm3, hall _ hm3⟩
+    · next v => exact ⟨v, hm3, outcome_value_sw demoSwitch_swP (hall _ hm3)⟩
     · cases hp3
 
 end MLPE.Eng
